@@ -507,8 +507,8 @@ struct QEngine : public Engine
       {
          const uint64_t nsl = genSize(r, cnt, sq);
          const bool setNum = r.chance(1,2);
-         // known findings D1/D2 (kept out of the random stream, see corpus/C16/q-shrinkbelow*.ops): allowShrink with fewer slots than items
-         const bool shrink = (nsl >= cnt)&&(r.chance(1,4));
+         // allowShrink also with fewer slots than items (findings C16-D1/D2, fixed in /repo by 97f299d; corpus/C16/q-shrinkbelow*.ops are regression cases)
+         const bool shrink = r.chance(1,4);
          emit(out, "ensure " + R + " " + u64s(nsl) + " " + u64s(setNum) + " " + u64s(r.chance(2,3) ? 0 : r.below(6)) + " " + u64s(shrink));
          return;
       }
